@@ -36,6 +36,10 @@ CLAIMED['C16'] = dict(level=MC, ref='DESIGN.md §4 C16',
    text='The real LeapfrogIntegrator.__call__, Hamiltonian.kinetic_energy and HMCOperator._step/step/reject are executed with the target an UNINTERPRETED differentiable function: model() returns U(q), backward() is answered by symbolic reverse differentiation so the gradient and Hessian are uninterpreted function symbols. For symbolic positions, momenta, step size and SPD inverse mass matrix (diagonal and dense) the solver proves: flip-and-return gives (q,-p); det d(q\',p\')/d(q,p) = 1; the energy error and its first derivative in the step size vanish at 0 (so the error is O(eps^2)); the operator returns K(p_start)-K(p_end), proposes the trajectory end point, retries after a numerical failure and reject() restores the identical state. Bounded in dimension and number of steps (the loop body is the same for every step).',
    note='Reals not floats ("up to round-off" is outside the claim); dimension <= 2, steps <= 2 quick / 3 thorough, one or two parameters per operator; Hessian symmetry of the target assumed (ground instances); momentum draw is an arbitrary symbolic vector; isnan guards false on real inputs; replays use torch.autograd on a quartic target.',
    technique=TECH_A + '; uninterpreted differentiable target, autograd modelled by symbolic reverse differentiation, Jacobian determinant by Leibniz expansion')
+CLAIMED['C20'] = dict(level=MC, ref='DESIGN.md §4 C20',
+   text='GMRF._call is compared, as a symbolic expression, with the Gaussian quadratic form built from the matrix GMRF.precision_matrix() publishes (plain, weighted, time-aware with symbolic heights whose orderings are path regions, shapes [] and [2]); GMRFGammaIntegrated and ConstantCoalescentIntegrated (with SYMBOLIC shape / rate hyper-parameters, obtained by substituting a symbolic math module) are compared with the closed forms of the Gamma / inverse-gamma integrals; sufficient_statistics() of both piecewise-constant coalescents must reproduce log_prob on every event-ordering region (coverage certified by the solver). Known findings (weighted / time-aware precision matrix) are reported as KNOWN-FINDING.',
+   note='Reals not floats; the Gamma integral identity is a trusted lemma (lgamma/log uninterpreted) - numerical quadrature only in replays (mpmath); field length <= 4 quick / 5 thorough, n = 3 taxa quick / 4 thorough, grid <= 1 quick / 2 thorough; GMRFCovariate outside the claim.',
+   technique=TECH_A + ' with solver-certified path-region coverage; three separately written code paths compared as expressions')
 CLAIMED['C18'] = dict(level='other', engine='crosshair', ref='DESIGN.md §4 C18',
    text='CrossHair (z3) symbolically executes the real save_parameters against a modelled file system with a SYMBOLIC pre-state (each of name/.old/.new absent, complete or truncated, constrained by a representation invariant that CrossHair itself shows inductive), a symbolic crash index and a symbolic number of lost buffered chunks; post-conditions: a complete checkpoint remains and name is never truncated. One inductive step from an arbitrary valid state covers any number of consecutive interrupted writes. Counterexamples are replayed on a real temporary directory (single step and whole crash chain from a clean directory) before being reported. Bounded by the chunk count of the modelled json.dump and the per-condition time budget, hence "other" (bounded symbolic execution), not proof.',
    note='File-system model (atomic rename, partial writes, buffered data lost on crash before close) validated against the real os/open on hundreds of concrete runs per check; json.dump modelled as K chunk writes; process crash, not power loss (no fsync modelling); first write into an empty directory outside the claim; safely=False / overwrite=True in-place modes are documented non-atomic and only checked for leaving siblings untouched.',
